@@ -4,18 +4,18 @@
 set -e
 HERE="$(cd "$(dirname "$0")" && pwd)"
 V="$HERE/.venv"
-if [ -x "$V/bin/python" ] && "$V/bin/python" -c "import z3, numpy, scipy" >/dev/null 2>&1; then
+if [ -x "$V/bin/python" ] && "$V/bin/python" -c "import z3, numpy, scipy, networkx" >/dev/null 2>&1; then
     exit 0
 fi
 LOCK="$HERE/.venv.lock"
 exec 9>"$LOCK"
 flock 9
-if [ -x "$V/bin/python" ] && "$V/bin/python" -c "import z3, numpy, scipy" >/dev/null 2>&1; then
+if [ -x "$V/bin/python" ] && "$V/bin/python" -c "import z3, numpy, scipy, networkx" >/dev/null 2>&1; then
     exit 0
 fi
 rm -rf "$V"
 /venv/bin/python -m venv "$V"
 SP="$V/lib/python3.12/site-packages"
 echo "import site; site.addsitedir('/venv/lib/python3.12/site-packages')" > "$SP/_base.pth"
-PIP_NO_INDEX=1 "$V/bin/pip" install -q --no-index --find-links /opt/veriftools/wheels z3-solver cvc5 jsonschema >/dev/null
+PIP_NO_INDEX=1 "$V/bin/pip" install -q --no-index --find-links /opt/veriftools/wheels z3-solver cvc5 jsonschema networkx >/dev/null
 "$V/bin/python" -c "import z3, numpy, scipy; print('bootstrap ok: z3', z3.get_version_string(), 'numpy', numpy.__version__)"
